@@ -18,18 +18,24 @@ namespace Ross
 theorem dispatch_addr (s : Proto) (p : Packet) (o : Bool) : (s.dispatch p o).addr = s.addr :=
   (dispatch_spec s p o).1.addr
 
+/-- `handle_packet` as translated (a fold of `Proto.invoke` over the table in key order) is the model's `Proto.dispatch` -/
+theorem src_handlePacket_eq (s : Proto) (p : Packet) (o : Bool) : Src.handlePacket s p o = s.dispatch p o := by
+  first
+  | rfl
+  | (simp only [Src.handlePacket, Proto.dispatch, Proto.invoke]; first | done | rfl | grind)
+
 /-- `send_packet` as translated computes what the model's `Proto.sendPacket` does (the proof unfolds whatever the
 translation contains and closes the goal by `grind`: it does not depend on how the source nests its tests) -/
 theorem src_sendPacket_eq (s : Proto) (p : Packet) : Src.sendPacket s p = s.sendPacket p := by
   first
   | rfl      -- not translated on this run: the generated definition is the model's
-  | (simp only [Src.sendPacket, Proto.sendPacket, dispatch_addr]; first | done | grind)
+  | (simp only [Src.sendPacket, src_handlePacket_eq, Proto.sendPacket, dispatch_addr]; first | done | grind)
 
 /-- `tick` as translated computes what the model's `Proto.tick` does -/
 theorem src_tick_eq (s : Proto) : Src.tick s = s.tick := by
   first
   | rfl
-  | (simp only [Src.tick, Proto.tick, Proto.ifaceGet]; first | done | grind)
+  | (simp only [Src.tick, src_handlePacket_eq, Proto.tick, Proto.ifaceGet]; first | done | grind)
 
 theorem src_removeHandler_eq (s : Proto) (id : Nat) : Src.removeHandler s id = s.remove id := by
   first
@@ -49,6 +55,101 @@ theorem src_nextHandlerId_eq (s : Proto) : Src.nextHandlerId s = nextId (s.handl
   | rfl
   | simp only [Src.nextHandlerId, nextId]
 
+/-- `add_packet_handler` as translated computes what the model's `Proto.add` does -/
+theorem src_addHandler_eq (s : Proto) (h : Handler) : Src.addHandler s h = s.add h := by
+  first
+  | rfl
+  | (simp only [Src.addHandler, Proto.add, Proto.insertKey, src_nextHandlerId_eq]; first | done | rfl | grind)
+
+/-! ### The exchange functions
+
+The translated receive loops run on fuel; the model's recurse on the receive queue. They agree whenever the fuel exceeds
+the length of the queue, and the translated `exchange_packet(s)` supplies `rxQueue.length + 1`: the fuel never runs out. -/
+
+theorem exchangeLoop_setq (s : Proto) (k : Kind) (c : Bool) (q' q : List (Except IfErr Packet)) :
+    ({ s with rxQueue := q' } : Proto).exchangeLoop k c q = s.exchangeLoop k c q := by
+  induction q with
+  | nil => rfl
+  | cons r q ih =>
+    cases r with
+    | error e => cases e <;> rfl
+    | ok r => simp only [Proto.exchangeLoop, ih]
+
+theorem exchangeAllLoop_setq (s : Proto) (k : Kind) (c : Bool) (q' q : List (Except IfErr Packet)) (acc : List Event) :
+    ({ s with rxQueue := q' } : Proto).exchangeAllLoop k c acc q = s.exchangeAllLoop k c acc q := by
+  induction q generalizing acc with
+  | nil => rfl
+  | cons r q ih =>
+    cases r with
+    | error e => cases e <;> rfl
+    | ok r => simp only [Proto.exchangeAllLoop, ih]
+
+theorem src_exchangeLoop_eq (k : Kind) (c : Bool) : ∀ (fuel : Nat) (s : Proto), s.rxQueue.length < fuel →
+    Src.exchangeLoop k c fuel s = some (s.exchangeLoop k c s.rxQueue) := by
+  intro fuel
+  first
+  | (intro s h; cases fuel with
+     | zero => omega
+     | succ n => rfl)      -- not translated on this run
+  | induction fuel with
+  | zero => intro s h; omega
+  | succ n ih =>
+    intro s h
+    cases hq : s.rxQueue with
+    | nil => simp [Src.exchangeLoop, Proto.ifaceGet, hq, Proto.exchangeLoop] <;> (cases s; simp_all)
+    | cons r q =>
+      have hlen : ({ s with rxQueue := q } : Proto).rxQueue.length < n := by simp [hq] at h ⊢; omega
+      have hrec := ih { s with rxQueue := q } hlen
+      simp only [exchangeLoop_setq] at hrec
+      cases r with
+      | error e => cases e <;> simp [Src.exchangeLoop, Proto.ifaceGet, hq, Proto.exchangeLoop]
+      | ok r =>
+        simp only [Src.exchangeLoop, Proto.ifaceGet, hq, Proto.exchangeLoop, hrec]
+        first | done | (repeat' split) <;> simp_all
+
+theorem src_exchangeAllLoop_eq (k : Kind) (c : Bool) : ∀ (fuel : Nat) (s : Proto) (acc : List Event), s.rxQueue.length < fuel →
+    Src.exchangeAllLoop k c fuel s acc = some (s.exchangeAllLoop k c acc s.rxQueue) := by
+  intro fuel
+  first
+  | (intro s acc h; cases fuel with
+     | zero => omega
+     | succ n => rfl)      -- not translated on this run
+  | induction fuel with
+  | zero => intro s acc h; omega
+  | succ n ih =>
+    intro s acc h
+    cases hq : s.rxQueue with
+    | nil => simp [Src.exchangeAllLoop, Proto.ifaceGet, hq, Proto.exchangeAllLoop] <;> (cases s; simp_all)
+    | cons r q =>
+      have hlen : ({ s with rxQueue := q } : Proto).rxQueue.length < n := by simp [hq] at h ⊢; omega
+      have hrec := fun acc => ih { s with rxQueue := q } acc hlen
+      simp only [exchangeAllLoop_setq] at hrec
+      cases r with
+      | error e => cases e <;> simp [Src.exchangeAllLoop, Proto.ifaceGet, hq, Proto.exchangeAllLoop]
+      | ok r =>
+        simp only [Src.exchangeAllLoop, Proto.ifaceGet, hq, Proto.exchangeAllLoop, hrec]
+        first | done | (repeat' split) <;> simp_all
+
+/-- `exchange_packet::<_, R>` as translated — send, wait, then the receive loop on `rxQueue.length + 1` units of fuel —
+never runs out of fuel and computes what the model's `Proto.exchange` does -/
+theorem src_exchange_eq (s : Proto) (p : Packet) (k : Kind) (c : Bool) : Src.exchange s p k c = some (s.exchange p k c) := by
+  first
+  | rfl
+  | (simp only [Src.exchange, Proto.exchange, src_sendPacket_eq, Proto.waitMark]
+     cases hs : s.sendPacket p with
+     | mk s' r => cases r <;> simp [src_exchangeLoop_eq])
+
+theorem src_exchangeAll_eq (s : Proto) (p : Packet) (k : Kind) (c : Bool) : Src.exchangeAll s p k c = some (s.exchangeAll p k c) := by
+  first
+  | rfl
+  | (simp only [Src.exchangeAll, Proto.exchangeAll, src_sendPacket_eq, Proto.waitMark]
+     cases hs : s.sendPacket p with
+     | mk s' r => cases r <;> simp [src_exchangeAllLoop_eq])
+
+#print axioms src_handlePacket_eq
+#print axioms src_addHandler_eq
+#print axioms src_exchange_eq
+#print axioms src_exchangeAll_eq
 #print axioms src_sendPacket_eq
 #print axioms src_tick_eq
 #print axioms src_removeHandler_eq
